@@ -191,7 +191,7 @@ TrUnmarshal ==
                  \/ Len(buf[e.eqb]) < 4 * (HLen(buf[e.eqb]) + 1) THEN {}
               ELSE IF res.ok # (pk[e.eqh].k # "NONE") \/ (res.ok /\ res.out # pk[e.eqh])
                    THEN {"C13:depends_on_octets_after_declared_length"} ELSE {}
-         Z == IF e.entry = "TWCC" THEN Twcc13Tags(buf[e.b], res) ELSE {}
+         Z == IF e.entry = "TWCC" THEN Twcc13Tags(buf[e.b], res) ELSE IF e.entry = "REMB" THEN Remb14Tags(buf[e.b], res) ELSE {}
          G(D) == UnmarshalGuard(D, e.entry, e.b, res) \cup X \cup Y \cup Z IN
      /\ pk' = [pk EXCEPT ![e.h] = IF res.ok THEN res.out ELSE None]
      /\ memo' = [memo EXCEPT ![e.h] = SrcMemo(e.b, e.entry)] /\ UNCHANGED << buf, prov, provdec >>
